@@ -76,6 +76,8 @@ struct Base {
     first_step: Option<f64>,
     /// 7 requested times and dense output (values then come from the step interpolants)
     teval: bool,
+    /// four event functions (more than state components), one of them terminal with count 2
+    events: bool,
 }
 
 fn bases() -> Vec<Base> {
@@ -95,10 +97,11 @@ fn bases() -> Vec<Base> {
                             _ => vec![None, Some(2.0 * span)],
                         };
                         for first_step in fss {
-                            v.push(Base { method: m, prob: p, backward, max_steps, min_step, first_step, teval: false });
+                            v.push(Base { method: m, prob: p, backward, max_steps, min_step, first_step, teval: false, events: false });
                         }
                         if p < 7 && min_step.is_none() {
-                            v.push(Base { method: m, prob: p, backward, max_steps, min_step, first_step: None, teval: true });
+                            v.push(Base { method: m, prob: p, backward, max_steps, min_step, first_step: None, teval: true, events: false });
+                            v.push(Base { method: m, prob: p, backward, max_steps, min_step, first_step: None, teval: false, events: true });
                         }
                     }
                 }
@@ -125,6 +128,15 @@ fn cfg_of(b: &Base) -> (Prob, Cfg) {
     c.min_step = b.min_step;
     c.first_step = b.first_step.map(|h| if b.backward { -h } else { h });
     c.user_jac = p.jac.is_some();
+    if b.events {
+        use crate::env::{EvKind, EventSpec};
+        c.events = vec![
+            EventSpec::new(EvKind::T(0.31 * xend)),
+            EventSpec::new(EvKind::Y(0, 0.5 * p.y0[0] + 0.3)).term(2),
+            EventSpec::new(EvKind::Cos(5.0)),
+            EventSpec::new(EvKind::T(0.33 * xend)).dir(Direction::Negative),
+        ];
+    }
     if b.teval {
         c.t_eval = Some((0..=6).map(|i| xend * i as f64 / 6.0).collect());
         c.dense = true;
@@ -170,7 +182,7 @@ fn exec(b: &Base, faults: &[Fault], key: &str) -> CaseOut {
             // with non-finite answers the RHS call times themselves can be non-finite, so the
             // call-range clause is only kept for fault-free runs.
             let mut mv = vec![];
-            monitor(&c, &r, p.n, false, &mut mv, &mut tags);
+            monitor(&c, &r, p.n, b.events, &mut mv, &mut tags);
             for (k, m) in mv {
                 if !faults.is_empty() && (k == "call-range") {
                     continue;
